@@ -182,7 +182,7 @@ def option_unwrap_or(ex, st, callee, args, m):
     return Fork([(o.disc == 1, lambda ex, st, a: a[0].fields['Some'][0]), (o.disc != 1, lambda ex, st, a: a[1])])
 
 
-@model(r'^core::num::<impl (%s)>::(saturating_sub|saturating_add|wrapping_add|wrapping_sub|wrapping_mul|wrapping_neg|wrapping_div|wrapping_rem|abs|min|max|wrapping_abs|unsigned_abs|abs_diff|is_power_of_two)$' % _PRIM)
+@model(r'^core::num::<impl (%s)>::(saturating_sub|saturating_add|wrapping_add|wrapping_sub|wrapping_mul|wrapping_neg|wrapping_div|wrapping_rem|wrapping_div_euclid|wrapping_rem_euclid|div_euclid|rem_euclid|abs|min|max|wrapping_abs|unsigned_abs|abs_diff|is_power_of_two)$' % _PRIM)
 def num_misc(ex, st, callee, args, m):
     """integer helper methods (saturating/wrapping arithmetic, abs with its overflow panic)"""
     t, f = m.group(1), m.group(2); sg = t in SIGNED
@@ -199,6 +199,17 @@ def num_misc(ex, st, callee, args, m):
         if not sg: return UDiv(a, b) if f == 'wrapping_div' else URem(a, b)
         mn = BitVecVal(-(2 ** (w - 1)), w); ovf = And(a == mn, b == BitVecVal(-1, w))
         return If(ovf, mn if f == 'wrapping_div' else BitVecVal(0, w), (a / b) if f == 'wrapping_div' else SRem(a, b))
+    if f in ('wrapping_div_euclid', 'wrapping_rem_euclid', 'div_euclid', 'rem_euclid'):
+        nz = b != 0
+        st.path.oblige('no panic: %s by zero' % f, nz, callee); st.path.assume(nz)
+        div = f.endswith('div_euclid')
+        if not sg: return UDiv(a, b) if div else URem(a, b)
+        mn = BitVecVal(-(2 ** (w - 1)), w); ovf = And(a == mn, b == BitVecVal(-1, w))
+        if not f.startswith('wrapping'):
+            st.path.oblige('no panic: %s overflow (MIN by -1)' % f, Not(ovf), callee); st.path.assume(Not(ovf))
+        r = SRem(a, b); q = a / b
+        if div: return If(ovf, mn, If(r < 0, If(b > 0, q - 1, q + 1), q))
+        return If(ovf, BitVecVal(0, w), If(r < 0, If(b < 0, r - b, r + b), r))
     if f == 'saturating_sub' and not sg: return If(ULT(a, b), BitVecVal(0, w), a - b)
     if f == 'saturating_add' and not sg: return If(BVAddNoOverflow(a, b, False), a + b, BitVecVal(2 ** w - 1, w))
     if f == 'saturating_add' and sg:
